@@ -1517,6 +1517,9 @@ def run_corpus(r):
 
 IL_PROGS = ["vsFindValueMin", "vsTreeMinimum", "vsTreeSuccessor", "vsLeftRotate", "vsRightRotate", "vsSearch", "vsQuery",
             "vsInsert", "vsDelete"]
+# the event geometry, the event list and the sweep (subjects of Props/C05.lean section 8, Proofs/ILVs*.lean)
+IL_PROGS_EV = ["vsEventRowCol", "vsEventPos", "vsAngle", "vsVerticalAng", "vsInitEventList"]
+IL_PROGS_SWEEP = ["vsSweep"]
 
 
 def run(r):
@@ -1539,6 +1542,8 @@ def run(r):
     # subjects of the refinement theorems `generated_query_*`, `generated_rotations_*`, `generated_small_routines`)
     # against the numba-compiled functions, on arrays reached by random insert / delete histories of the real code
     il_corr.stream(r, IL_PROGS, 300 if quick else 3000)
+    il_corr.stream(r, IL_PROGS_EV, 300 if quick else 3000)
+    il_corr.stream(r, IL_PROGS_SWEEP, 100 if quick else 1000)
     seam1(r, n_seq=10 if quick else 120, nops=120, pool=40)
     seam123(r, n_terr=60 if quick else 1000, maxs=9 if quick else 15, tree_level_every=6 if quick else 10)
     if not quick:
